@@ -23,8 +23,10 @@ Abstractions (all checked by the correspondence run, stated in the props files):
 * pending output (`next_out_[.. available_out_]`) is the byte list `pending`; `nextOut` keeps
   the tag/offset (`DynamicStorage(off)`, `TinyBuf(off)`, `None`) for the padding-destination
   logic and the capacity panic sites (`tiny_buf_` is 16 bytes, `storage_` is `storageSize`);
-* ring buffer CONTENT is not modelled, its indices, allocation length and every slice bound of
-  the write path are; the (up to three) bytes the catable prelude reads are the ghost `first2`;
+* ring buffer: indices, allocation length, every slice bound of the write path AND the content of
+  `data_mo` (`Ring.cells`: the cells ever written, newest first; a cell never written is 0, as a
+  fresh allocation is) — 2-byte prefix, data, tail mirror, 7 bytes of slack; the (up to three)
+  bytes the catable prelude reads are still the ghost `first2`;
 * allocator traffic, hasher, commands, dist cache, prev bytes: payload, not here.
 `usize = u64`; `wrapping_*` are explicit `% 2^64` / `% 2^32`.
 -/
@@ -126,8 +128,9 @@ deriving Repr, DecidableEq, Inhabited
 def IsFirst.code : IsFirst → Nat
   | .nothing => 0 | .header => 1 | .firstCatable => 2 | .bothCatable => 3
 
-/-- index-level ring buffer: `size_ mask_ tail_size_ total_size_ cur_size_ pos_`,
-`allocLen = data_mo.len()` (0 = nothing allocated; `buffer_index` is 2 once allocated) -/
+/-- ring buffer: `size_ mask_ tail_size_ total_size_ cur_size_ pos_`,
+`allocLen = data_mo.len()` (0 = nothing allocated; `buffer_index` is 2 once allocated), and the
+content of `data_mo` as the list of cells written so far, newest first -/
 structure Ring where
   size : Nat := 0
   mask : Nat := 0
@@ -136,7 +139,20 @@ structure Ring where
   curSize : Nat := 0
   pos : Nat := 0
   allocLen : Nat := 0
+  cells : List (Nat × Nat) := []
 deriving Repr, DecidableEq, Inhabited
+
+/-- `data_mo[i]` -/
+def cellsGet : List (Nat × Nat) → Nat → Nat
+  | [], _ => 0
+  | (j, v) :: rest, i => if j = i then v else cellsGet rest i
+
+/-- `data_mo[start .. start + bytes.len()].clone_from_slice(bytes)` -/
+def cellsWrite (cells : List (Nat × Nat)) : Nat → Bytes → List (Nat × Nat)
+  | _, [] => cells
+  | start, b :: bs => (start, b) :: cellsWrite cells (start + 1) bs
+
+def Ring.get (rb : Ring) (i : Nat) : Nat := cellsGet rb.cells i
 
 structure St where
   params : Params := {}
@@ -219,56 +235,83 @@ def ringInitBuffer (rb : Ring) (buflen : Nat) : Out Ring :=
   let lim := ((2 + rb.curSize) % two32) + 7
   if rb.allocLen ≠ 0 ∧ (lim > newLen ∨ lim > rb.allocLen) then .panic
   else if 2 + buflen + 7 > newLen then .panic      -- the zeroing loop `buffer_index + cur_size_ + i`
-  else .ok { rb with allocLen := newLen, curSize := buflen }
+  else .ok { rb with allocLen := newLen, curSize := buflen,
+                     cells := cellsWrite (cellsWrite rb.cells 0 [0, 0]) (2 + buflen) (List.replicate 7 0) }
 
-/-- `RingBufferWrite(bytes, n)` with `bytes.len() = avail` -/
-def ringWrite (rb : Ring) (n avail : Nat) : Out Ring :=
+/-- the content after the tail-mirror write, the body write(s) and the prefix mirror of
+`RingBufferWrite` (all bound checks have passed) -/
+def ringWriteCells (rb : Ring) (bytes : Bytes) : List (Nat × Nat) :=
+  let n := bytes.length
+  let maskedPos := rb.pos % (rb.mask + 1)
+  let c1 := if maskedPos < rb.tailSize then cellsWrite rb.cells (2 + rb.size + maskedPos) (bytes.take (min n (rb.tailSize - maskedPos)))
+            else rb.cells
+  let c2 := if maskedPos + n ≤ rb.size then cellsWrite c1 (2 + maskedPos) bytes
+            else cellsWrite (cellsWrite c1 (2 + maskedPos) (bytes.take (min n (rb.totalSize - maskedPos)))) 2
+                   ((bytes.drop (rb.size - maskedPos)).take (n - (rb.size - maskedPos)))
+  cellsWrite (cellsWrite c2 0 [cellsGet c2 (2 + rb.size - 2)]) 1 [cellsGet c2 (2 + rb.size - 1)]
+
+/-- `RingBufferWrite`, the growth to the full size on the first write that is not a small first one -/
+def ringGrow (rb : Ring) : Out Ring :=
+  if rb.curSize < rb.totalSize then
+    match ringInitBuffer rb rb.totalSize with
+    | .ok rb' => if 2 + rb'.size - 1 ≥ rb'.allocLen ∨ rb'.size < 2 then .panic
+                 else .ok { rb' with cells := cellsWrite rb'.cells (2 + rb'.size - 2) [0, 0] }
+    | o => o
+  else .ok rb
+
+/-- `pos_` after writing `n` bytes: `lap = max(2^30, size_)`; `pos_` stays congruent to the stream
+position modulo `size_` and, once past the first lap, above `mask_` (u64 arithmetic, then `as u32`) -/
+def ringPosAfter (rb : Ring) (n : Nat) : Nat :=
+  if (rb.pos + n) % two64 > max 1073741824 rb.size
+  then (((rb.pos + n) % two64 % max 1073741824 rb.size) ||| max 1073741824 rb.size) % two32
+  else (rb.pos + n) % two64 % two32
+
+/-- `RingBufferWrite` on the full-size buffer: the slice bounds of `RingBufferWriteTail`, of the body
+write(s) and of the prefix mirror, then content and position -/
+def ringWriteMain (rb : Ring) (bytes : Bytes) (avail : Nat) : Out Ring :=
+  let n := bytes.length
+  let maskedPos := rb.pos % (rb.mask + 1)
+  -- RingBufferWriteTail
+  let tailOk : Bool :=
+    if maskedPos < rb.tailSize then
+      let p := rb.size + maskedPos
+      let lim := min n (rb.tailSize - maskedPos)
+      decide (2 + p + lim ≤ rb.allocLen ∧ lim ≤ avail)
+    else true
+  if !tailOk then .panic else
+  let bodyOk : Bool :=
+    if maskedPos + n ≤ rb.size then decide (2 + maskedPos + n ≤ rb.allocLen ∧ n ≤ avail)
+    else
+      let mid := min n (rb.totalSize - maskedPos)
+      let sz := n - (rb.size - maskedPos)
+      let bstart := rb.size - maskedPos
+      decide (rb.totalSize ≥ maskedPos ∧ 2 + maskedPos + mid ≤ rb.allocLen ∧ mid ≤ avail ∧
+              rb.size ≥ maskedPos ∧ n ≥ rb.size - maskedPos ∧ 2 + sz ≤ rb.allocLen ∧ bstart + sz ≤ avail)
+  if !bodyOk then .panic
+  else if 2 + rb.size - 1 ≥ rb.allocLen ∨ rb.size < 2 then .panic   -- the two prefix-mirror reads
+  else .ok { rb with pos := ringPosAfter rb n, cells := ringWriteCells rb bytes }
+
+/-- `RingBufferWrite(bytes, n)`: `bytes` = the `n` bytes written, `avail` = length of the slice passed -/
+def ringWrite (rb : Ring) (bytes : Bytes) (avail : Nat) : Out Ring :=
+  let n := bytes.length
   if rb.pos = 0 ∧ n < rb.tailSize then
     match ringInitBuffer { rb with pos := n } n with
-    | .ok rb' => if 2 + n > rb'.allocLen ∨ n > avail then .panic else .ok rb'
+    | .ok rb' => if 2 + n > rb'.allocLen ∨ n > avail then .panic else .ok { rb' with cells := cellsWrite rb'.cells 2 bytes }
     | o => o
   else
-    let grow : Out Ring :=
-      if rb.curSize < rb.totalSize then
-        match ringInitBuffer rb rb.totalSize with
-        | .ok rb' => if 2 + rb'.size - 1 ≥ rb'.allocLen ∨ rb'.size < 2 then .panic else .ok rb'
-        | o => o
-      else .ok rb
-    match grow with
-    | .ok rb =>
-      let maskedPos := rb.pos % (rb.mask + 1)
-      -- RingBufferWriteTail
-      let tailOk : Bool :=
-        if maskedPos < rb.tailSize then
-          let p := rb.size + maskedPos
-          let lim := min n (rb.tailSize - maskedPos)
-          decide (2 + p + lim ≤ rb.allocLen ∧ lim ≤ avail)
-        else true
-      if !tailOk then .panic else
-      let bodyOk : Bool :=
-        if maskedPos + n ≤ rb.size then decide (2 + maskedPos + n ≤ rb.allocLen ∧ n ≤ avail)
-        else
-          let mid := min n (rb.totalSize - maskedPos)
-          let sz := n - (rb.size - maskedPos)
-          let bstart := rb.size - maskedPos
-          decide (rb.totalSize ≥ maskedPos ∧ 2 + maskedPos + mid ≤ rb.allocLen ∧ mid ≤ avail ∧
-                  rb.size ≥ maskedPos ∧ n ≥ rb.size - maskedPos ∧ 2 + sz ≤ rb.allocLen ∧ bstart + sz ≤ avail)
-      if !bodyOk then .panic
-      else if 2 + rb.size - 1 ≥ rb.allocLen ∨ rb.size < 2 then .panic   -- the two prefix-mirror reads
-      else
-        let pos := (rb.pos + n) % two32
-        let pos := if pos > 1073741824 then (pos % 1073741824) ||| 1073741824 else pos
-        .ok { rb with pos := pos }
+    match ringGrow rb with
+    | .ok rb => ringWriteMain rb bytes avail
     | o => o
 
 /-- `copy_input_to_ring_buffer(input_size, input_buffer)`; `chunk` = the bytes copied -/
 def copyInputToRingBuffer (s : St) (chunk : Bytes) (avail : Nat) : Out St :=
   let s := ensureInitialized s
-  match ringWrite s.ring chunk.length avail with
+  match ringWrite s.ring chunk avail with
   | .ok rb =>
     if rb.pos ≤ rb.mask ∧ 2 + rb.pos + 7 > rb.allocLen then .panic     -- zeroing of the 7 look-ahead bytes
     else
       let f2 := if s.first2.length < 3 ∧ s.inputPos < 3 then (s.first2 ++ chunk).take 3 else s.first2
+      let rb : Ring := if rb.pos ≤ rb.mask then { rb with cells := cellsWrite rb.cells (2 + rb.pos) (List.replicate 7 0) } else rb
       .ok { s with ring := rb, inputPos := (s.inputPos + chunk.length) % two64, first2 := f2 }
   | .panic => .panic
   | .fuel => .fuel
